@@ -502,6 +502,8 @@ MUTANTS["C09"] = [
     M("reader_index_from_base", PX, '        index = memory_address.get("index", None)', '        index = memory_address.get("base", None)', "R4"),
     M("third_operand_dropped", PX, '        if "operand3" in result:\n            operands.append(self.process_operand(result["operand3"]))\n', "", "R4"),
     M("imm_base_10", PX, 'new_immediate = ImmediateOperand(value=int(immediate["value"], 0))', 'new_immediate = ImmediateOperand(value=int(immediate["value"]))', "R5"),
+    M("plain_offset_base_10", PX, "                offset = ImmediateOperand(value=int(offset, 0))", "                offset = ImmediateOperand(value=int(offset))", "R5",
+      "seeded change (round 9), inline form: a displacement-only address written in hexadecimal stays a string"),
     M("offset_base_10", PX, '            offset = ImmediateOperand(value=int(offset["value"], 0))', '            offset = ImmediateOperand(value=int(offset["value"], 10))', "R5"),
     M("scale_default_zero", PX, 'scale = 1 if "scale" not in memory_address else int(memory_address["scale"], 0)', 'scale = 0 if "scale" not in memory_address else int(memory_address["scale"], 0)', "R5"),
     M("base_index_swapped", PX, "new_dict = MemoryOperand(offset=offset, base=baseOp, index=indexOp, scale=scale)", "new_dict = MemoryOperand(offset=offset, base=indexOp, index=baseOp, scale=scale)", "R5"),
@@ -553,6 +555,19 @@ MUTANTS["C16"] += [
     M("floor_with_capped_workers", KDG, "            num_cores = cpu_count()\n            workload = int((klen - 1) / num_cores) + 1", "            num_cores = min(cpu_count(), klen)\n            workload = klen // num_cores", "R1", "seeded change C16"),
     M("capped_workers_ceiling_ok", KDG, "            num_cores = cpu_count()\n", "            num_cores = min(cpu_count(), klen)\n", "SILENT", "any positive worker count satisfies the lemma"),
     M("floor_inside_max", KDG, "workload = int((klen - 1) / num_cores) + 1", "workload = max(1, klen // num_cores)", "R1", "seeded change C05"),
+]
+_TMP_OLD = "            if tmpfile.exists():\n                tmpfile.unlink()\n"
+MUTANTS["C20"] += [
+    M("index_key_folded", HW, 'self._data["instruction_forms_dict"][mnemonic].append(instr_data)',
+      'self._data["instruction_forms_dict"][mnemonic.upper()].append(instr_data)', "R7",
+      "seeded change (round 9): new forms become visible to the constant operand comparison"),
+]
+MUTANTS["C17"] += [
+    M("unlink_unguarded", HW, _TMP_OLD, "            tmpfile.unlink()\n", "R8", "after the rename the temporary file is gone"),
+    M("unlink_glob_leftovers", HW, _TMP_OLD, '            for leftover in cachefile.parent.glob(cachefile.stem + ".*.tmp.pickle"):\n                leftover.unlink()\n',
+      "R8", "seeded change (round 9): other processes' finished temporary files are deleted"),
+    M("ok_unlink_missing_ok", HW, _TMP_OLD, "            tmpfile.unlink(missing_ok=True)\n", "SILENT", "behaviour-preserving"),
+    M("ok_unlink_try", HW, _TMP_OLD, "            try:\n                tmpfile.unlink()\n            except FileNotFoundError:\n                pass\n", "SILENT", "behaviour-preserving"),
 ]
 MUTANTS["C17"] += [
     M("runtime_cache_first", HW, "            # Check runtime cache\n            if self._path in MachineModel._runtime_cache and not lazy:\n                self._data = MachineModel._runtime_cache[self._path]\n            # check if file is cached\n            cached = self._get_cached(self._path) if not lazy else False",
